@@ -14,28 +14,28 @@ import (
 )
 
 type Engine struct {
-	repo     string
-	verifDir string
-	pkgs     []*packages.Package
-	allPkgs  map[string]*packages.Package
-	prog     *ssa.Program
-	files    []*ContractFile
-	byFull   map[string]*Contract // callee full name -> contract (repo functions under contract)
-	assumed  map[string]*Contract // callee full name -> assumed contract
-	fnOf     map[*Contract]*ssa.Function
-	pure     []string
-	specFuncs map[string]*SpecFunc
-	lemmas   []*Lemma
-	fieldIDs map[string]int
-	globalIDs map[string]int
-	byName   map[string]*types.Package
-	orphans  []orphan
-	loadErrs []string
-	overlay  map[string][]byte
+	repo            string
+	verifDir        string
+	pkgs            []*packages.Package
+	allPkgs         map[string]*packages.Package
+	prog            *ssa.Program
+	files           []*ContractFile
+	byFull          map[string]*Contract // callee full name -> contract (repo functions under contract)
+	assumed         map[string]*Contract // callee full name -> assumed contract
+	fnOf            map[*Contract]*ssa.Function
+	pure            []string
+	specFuncs       map[string]*SpecFunc
+	lemmas          []*Lemma
+	fieldIDs        map[string]int
+	globalIDs       map[string]int
+	byName          map[string]*types.Package
+	orphans         []orphan
+	loadErrs        []string
+	overlay         map[string][]byte
 	replayTemplates map[string]*replayTemplate
-	stableCache map[string][]string
-	decoded  []*Decoded
-	globalInvs map[string][]Clause // package dir -> invariants
+	stableCache     map[string][]string
+	decoded         []*Decoded
+	globalInvs      map[string][]Clause // package dir -> invariants
 }
 
 func newEngine(repo, verifDir string) *Engine {
